@@ -2,9 +2,17 @@ package vrt
 
 import (
 	"fmt"
+	"regexp"
 	"runtime"
+	"strings"
 	"unsafe"
 )
+
+var lineRe = regexp.MustCompile(`\[[^\]]*\]`)
+
+// RaceKey strips file:line positions from a race description so that it can
+// serve as a stable finding key (functions and access kinds remain).
+func RaceKey(r string) string { return lineRe.ReplaceAllString(r, "") }
 
 // Happens-before race monitor (vector clocks).  Edges come from every shim
 // operation; accesses come from the recorders the instrumenter wraps around
@@ -134,7 +142,11 @@ func site(pc uintptr) string {
 			break
 		}
 	}
-	return fmt.Sprintf("%s:%d", file, line)
+	name := f.Name()
+	if i := strings.LastIndexByte(name, '/'); i >= 0 {
+		name = name[i+1:]
+	}
+	return fmt.Sprintf("%s[%s:%d]", name, file, line)
 }
 
 func (r *Run) reportRace(a epoch, aw bool, b epoch, bw bool) {
@@ -205,4 +217,21 @@ func AtomicPoint(kind string, p unsafe.Pointer) {
 		sv.Acquire()
 		sv.Release()
 	}
+}
+
+// ObjR records a read of the opaque object p points to (method call on a
+// container from an uninstrumented package) and returns p.
+func ObjR[T any](p *T) *T {
+	if r := rcur; r != nil && r.cfg.Races && p != nil {
+		r.access(uintptr(unsafe.Pointer(p)), false, 1)
+	}
+	return p
+}
+
+// ObjW records a mutation of the opaque object p points to and returns p.
+func ObjW[T any](p *T) *T {
+	if r := rcur; r != nil && r.cfg.Races && p != nil {
+		r.access(uintptr(unsafe.Pointer(p)), true, 1)
+	}
+	return p
 }
